@@ -14,7 +14,16 @@ CONSTANTS Sizes, MaxLen, Dump, BadStep
 VARIABLES seq, pos, used, cnt, phase
 vars == <<seq, pos, used, cnt, phase>>
 
-Init == seq = <<>> /\ pos = 1 /\ used = 0 /\ cnt = 0 /\ phase = "grow"
+\* Long layouts (hundreds of members, 256 slots and more: whatever accumulates must not be narrow), started directly
+LongSeqs == {[i \in 1 .. 256 |-> 256],
+             [i \in 1 .. 300 |-> IF i % 2 = 0 THEN 256 ELSE 128],
+             <<128>> \o [i \in 1 .. 253 |-> 256] \o <<128, 256>>,
+             [i \in 1 .. 600 |-> 128],
+             [i \in 1 .. 257 |-> 8],
+             [i \in 1 .. 520 |-> IF i % 3 = 0 THEN 8 ELSE 248]}
+Init == IF MaxLen = 0
+        THEN seq \in LongSeqs /\ pos = 1 /\ used = 0 /\ cnt = 0 /\ phase = "run"
+        ELSE seq = <<>> /\ pos = 1 /\ used = 0 /\ cnt = 0 /\ phase = "grow"
 
 Grow(x) == /\ phase = "grow" /\ Len(seq) < MaxLen
            /\ seq' = Append(seq, x)
@@ -69,6 +78,13 @@ DumpBehaviour ==
                                    asc |-> GreedySlots(SortAsc(seq)),
                                    desc |-> GreedySlots(SortDesc(seq)),
                                    verdict |-> Verdict(seq)])>>)
+
+LongGreedy == Done => cnt = GreedySlots(seq)
+DumpLong ==
+    (Done /\ Dump) =>
+        PrintT(<<"REPLAY", ToJson([sizes |-> seq, slots |-> cnt, opt |-> 0 - 1,
+                                   asc |-> GreedySlots(SortAsc(seq)), desc |-> GreedySlots(SortDesc(seq)),
+                                   verdict |-> IF GreedySlots(SortAsc(seq)) < cnt /\ GreedySlots(SortDesc(seq)) < cnt THEN "must" ELSE "free"])>>)
 
 \* the transition table of the loop, for folding over longer sequences in the harness
 StepTable ==
